@@ -172,6 +172,8 @@ class griddesc(ioapi_base):
         self.setgrid(key=GDNAM, withcf=withcf)
         self.updatemeta()
         self.getVarlist()
+        # time flags are coordinates, not data (as in ioapi_base.__init__)
+        self.setCoords(['TFLAG'])
 
     def setdefvars(self, var_kwds):
         """
